@@ -8,6 +8,7 @@ EW_NOTE = "Trusted base: the harness (explorer, endpoint world, monitors), the v
 CHECKS = {
  "C01": ("model_checking", "Stateless deviation-bounded exhaustive exploration of two real HalfConnections over a harness-owned lossy/duplicating/reordering/corrupting link; per-channel delivery compared with a FIFO reference model on every execution.", "4.C01", "deviation-bounded stateless model checking of the implementation (link world) against a per-channel FIFO reference model", LW_NOTE),
  "C02": ("model_checking", "Same exploration with fault prefixes followed by a fair network: Reliable-never-skipped on every round, and bounded liveness (all Reliable packets delivered exactly once, nothing pending, send buffer 0) within an a-priori horizon of 300 s virtual time.", "4.C02", "deviation-bounded stateless model checking with fair suffix; bounded liveness", LW_NOTE),
+ "C03": ("fault_enumeration", "Every explored execution runs under catch_unwind with a per-call work budget and a wall-clock watchdog: state-relative hostile data/ack/sync frames at every round of a link-world session, every short payload after every type byte and frames with extreme fields against real endpoints in every connection state (an honest client must still be served), all TFRC event sequences of C14, and a cross-section of the other properties' fault explorations.", "4.C03", "exhaustive enumeration of hostile inputs against the real code with panic / work-budget / watchdog oracles", LW_NOTE + " Debug assertions and overflow checks are on, so they count as panics."),
  "C04": ("model_checking", "One packet of every boundary size around the fragment multiples through the real sender/receiver pair with flush budgets that cut it across flushes and per-frame fates (deviation-bounded), plus a lone real receiver fed with every arrival order, duplication pattern, interleaving and every disagreeing fragment at every position.", "4.C04", "deviation-bounded stateless model checking (link world) + exhaustive enumeration of fragment arrival sequences on the real receiver", LW_NOTE),
  "C05": ("model_checking", "Ideal network, all timing/application choices (step spacing, skipped steps, extra flushes, latencies) up to d deviations: global delivery order must equal submission order minus TimeSensitive packets.", "4.C05", "deviation-bounded stateless model checking on an ideal link (timing/application choices) against a global FIFO reference model", LW_NOTE),
  "C06": ("fault_enumeration", "Grid of hostile datagram streams (claimed fragment counts up to 65536, ids inside/at the edge/outside the window, never-completing packets, frame id strides, bursts between steps) against a lone real receiver under a counting allocator; sender half by deviation-bounded link-world exploration with a wire-level allocation ledger.", "4.C06", "exhaustive enumeration of a hostile-stream generator grid on the real receiver with a counting allocator + deviation-bounded stateless model checking for the sender half", LW_NOTE),
@@ -15,6 +16,7 @@ CHECKS = {
  "C08": ("model_checking", "Deviation-bounded exploration of application calls (send/disconnect/disconnect_now/drop/reconnect), datagram fates and timer-relevant step spacings on real endpoints; every event stream is run through the reference automaton.", "4.C08", "deviation-bounded stateless model checking of the endpoints against a per-connection event automaton", EW_NOTE),
  "C09": ("model_checking", "Deviation-bounded exploration of fates and permanent blackouts around disconnect()/disconnect_now() by either side with 0-8 queued packets; flush-before-Disconnect and the 22 s termination budget are checked on every execution.", "4.C09", "deviation-bounded stateless model checking of the endpoints; bounded liveness", EW_NOTE),
  "C10": ("model_checking", "Reference timers (active timeout, 10x2 s retry budgets) stepped alongside every explored execution over a grid of timeouts, keepalive settings, cadences and handshake losses, with deviating step spacings around the deadlines.", "4.C10", "deviation-bounded stateless model checking of the endpoints against reference timers", EW_NOTE),
+ "C11": ("model_checking", "Fault phase (blackouts of 5-3000 rounds in one or both directions from any round, lasting latency/cadence changes by a factor 10-50, losses, pauses) then a fair network; probe packets of every mode submitted after the fault must be delivered within an a-priori horizon and pending data must have made progress.", "4.C11", "deviation-bounded stateless model checking with fair suffix; bounded liveness", LW_NOTE),
  "C12": ("model_checking", "Transmissions per (packet, fragment) read from the wire of every explored execution and compared with the send-mode contract, using the acknowledgements actually handed to the sender.", "4.C12", "deviation-bounded stateless model checking; wire-level transmission monitor", LW_NOTE),
  "C13": ("model_checking", "Every pair of emission instants of every explored execution is checked against the rate bound C*(dt+RTT)+1472.", "4.C13", "deviation-bounded stateless model checking; all-intervals rate monitor", LW_NOTE),
  "C19": ("fault_enumeration", "Link-world and endpoint-world executions under a checking global allocator (layout of every release compared with its allocation, unknown releases, live bytes after teardown), with the teardown point enumerated over every round and deviation-bounded fates.", "4.C19", "exhaustive enumeration of teardown points and bounded faults under a checking allocator", LW_NOTE),
